@@ -3,8 +3,8 @@ package streamsim
 import (
 	"io"
 
-	simcommon "github.com/tsenart/vegeta/v12/internal/zzsim/common"
 	"github.com/tsenart/vegeta/v12/internal/simrt"
+	simcommon "github.com/tsenart/vegeta/v12/internal/zzsim/common"
 	vegeta "github.com/tsenart/vegeta/v12/lib"
 )
 
